@@ -158,7 +158,7 @@ func (s *scte35) SetPTS(pts gots.PTS) {
 // during the call to Data().
 func (s *scte35) SetAdjustPTS(pts gots.PTS) {
 	// adjustment will be done by the function that generates the bytes
-	s.pts = pts
+	s.pts = pts & gots.MaxPtsValue // 33 bit timeline
 }
 
 // SetCommandInfo sets the object describing fields of the signal's splice
